@@ -127,16 +127,23 @@ Inductive spec : Type :=
 | SIll (fmt : nat) (opt : str)        (* an ill-typed value for [opt] in format 0 md / 1 toml / 2 config:
                                          must be rejected with a message naming the option *)
 | SUnk (fmt : nat) (key : str)        (* an unknown key: reported, run not aborted *)
-| SCli (clionly : iout).              (* every field set on the command line has the value that the
+| SCli (clionly : iout)               (* every field set on the command line has the value that the
                                          command line alone produces *)
+| SSame (md : iout).                  (* a flag or number given as text in fpm.toml / --config: the same
+                                         effective configuration as the same text in the project file,
+                                         whose outcome is [md] *)
 
 Record rcase := mkr { r_in : input; r_out : iout; r_spec : spec }.
 
-(* regions of the recorded findings for raw inputs *)
+(* regions of the recorded findings for raw inputs: in fpm.toml and --config the values of list,
+   key/value-table, file-type and path options are not checked against the declared type (region 4,
+   nonscalar-values-unchecked); bool / int / str options have no region in any format *)
 Definition ill_region (fmt : nat) (opt : str) : nat :=
   match fmt with
-  | 1 => 2                                             (* fpm.toml values are never checked *)
-  | 2 => 3                                             (* --config values are never checked *)
+  | 1 | 2 => match field_ty opt with
+             | Some t => if is_scalar_ty t then 0 else 4
+             | None => 0
+             end
   | _ => 0
   end.
 Definition unk_region (fmt : nat) : nat := 0.
@@ -171,6 +178,7 @@ Definition judge_raw (c : rcase) : nat :=
                 | _, _ => true
                 end in
       verdict mismatch (negb ok) 0
+    | SSame md => verdict mismatch (negb (same_out (r_out c) md)) 0
     end.
 
 (* full comparison of the no-option run (the base every diff refers to) *)
